@@ -72,7 +72,7 @@ Proof. vm_compute. reflexivity. Qed.
 Definition hdr_tok : tok := tcp_token ns_client default_version (str "en") (jid_string srv) (jid_string me) [].
 Example ex_expect_ok :
   expect parse_ex true false info_zero [TProcInst (str "xml"); TChar (str " "); hdr_tok; TStart ns_stream (str "features") []] =
-  (EOk, mkinfo ns_stream (str "stream") ns_client srv me [] (1, 0) [], [TStart ns_stream (str "features") []]).
+  (EOk, mkinfo ns_stream (str "stream") ns_client srv me [] (1, 0) (str "en"), [TStart ns_stream (str "features") []]).
 Proof. vm_compute. reflexivity. Qed.
 Example ex_no_end : no_end_before_start [TProcInst (str "xml"); TChar (str " "); hdr_tok] = true.
 Proof. reflexivity. Qed.
@@ -163,21 +163,18 @@ Proof. vm_compute. repeat split; reflexivity. Qed.
 Example ex_default : default_verdict me (str "f00d") = VJid (mkjid (str "me") (str "example.net") (str "f00d")).
 Proof. reflexivity. Qed.
 
-(* initiating side: two accepted (re)starts, no header carries an empty "to"
-   (premise of C12_restart_addresses_stable_initiating_no_empty_to) *)
+(* initiating side: two accepted (re)starts; then a header naming another
+   address for us is refused; one with to='' (the witness of the defect repaired
+   in negotiator.go) is tolerated and our address is kept *)
 Definition srv_hdr_to (to : bytes) : list tok :=
   [TStart ns_stream (str "stream")
      ([mkattr [] (str "xmlns") ns_client; mkattr [] (str "version") (str "1.0"); mkattr [] (str "id") (str "s1");
        mkattr [] (str "from") (jid_string srv)] ++ [mkattr [] (str "to") to])].
 Example ex_init_rounds :
-  let rounds := [([], srv_hdr_to (jid_string me)); ([], srv_hdr_to (jid_string me))] in
-  forallb (fun r => no_empty_to (snd r)) rounds = true /\
-  let '(res, i, wires) := neg_rounds parse_ex2 false false false [] (mkinfo [] [] [] me srv [] (0, 0) []) rounds in
+  let '(res, i, wires) := neg_rounds parse_ex2 false false false [] (mkinfo [] [] [] me srv [] (0, 0) [])
+                                     [([], srv_hdr_to (jid_string me)); ([], srv_hdr_to (jid_string me))] in
   res = NOk /\ i_to i = me /\ i_from i = srv /\ length wires = 2%nat.
 Proof. vm_compute. repeat split; reflexivity. Qed.
-
-(* ... a header naming another address for us is refused, one with to='' is
-   tolerated and leaves the zero JID (the refutation's witness shape) *)
 Example ex_init_to_changed :
   fst (fst (neg_rounds parse_ex2 false false false [] (mkinfo [] [] [] me srv [] (0, 0) [])
                        [([], srv_hdr_to (jid_string me)); ([], srv_hdr_to (jid_string me2))])) = NMismatch.
@@ -185,8 +182,13 @@ Proof. vm_compute. reflexivity. Qed.
 Example ex_init_empty_to :
   let '(res, i, _) := neg_rounds parse_ex2 false false false [] (mkinfo [] [] [] me srv [] (0, 0) [])
                                  [([], srv_hdr_to [])] in
-  res = NOk /\ i_to i = jid_zero /\ i_from i = srv /\ no_empty_to (srv_hdr_to []) = false.
+  res = NOk /\ i_to i = me /\ i_from i = srv.
 Proof. vm_compute. repeat split; reflexivity. Qed.
+
+(* the language of a received header is recorded *)
+Example ex_lang_recorded :
+  i_lang (snd (fst (expect parse_ex true false info_zero [hdr_tok]))) = str "en".
+Proof. vm_compute. reflexivity. Qed.
 
 (* the default verdict when nothing is known about the peer *)
 Example ex_default_none : default_verdict jid_zero (str "f00d") = VFail.
